@@ -4,6 +4,7 @@ import threading
 import rbql
 from rbql import rbql_engine as E
 import engine as EN
+import sharedmon
 
 
 class Sched(object):
@@ -170,7 +171,21 @@ def run_csvseq(c):
     return {'results': res}
 
 
-def run_case(c):
+def run_case_plain(c):
     if c['mode'] == 'csvseq':
         return run_csvseq(c)
     return run_inter(c) if c['mode'] == 'inter' else run_seq(c)
+
+
+def run_case(c):
+    """the case, between two snapshots of every shared cell of the loaded rbql modules (cross-check of translate_shared.py: the
+    check fails when a cell changed that the translator's write set does not contain)"""
+    if sharedmon._state['last'] is None:
+        sharedmon.begin()
+    try:
+        res = run_case_plain(c)
+    finally:
+        monitored, changed = sharedmon.delta()
+    if isinstance(res, dict):
+        res['shared'] = {'monitored': monitored, 'changed': changed}
+    return res
